@@ -111,8 +111,8 @@ def r_aon(rep, prog):
                               path="failure edge of bb%d -> ... -> return Ok" % bi)
             else:
                 rep.ok(rule, key, "no success return after a failed %s (%d success-return states)" % (name, n_ok_ret), t["span"])
-    rep.floor(rule, "CAS call sites inside loops (multi-word claims)", multi, 5)
-    rep.floor(rule, "functions with claim sites", n_fn, 8)
+    rep.floor(rule, "CAS call sites inside loops (multi-word claims)", multi, 3)
+    rep.floor(rule, "functions with claim sites", n_fn, 5)
 
 
 def r_claim_dom(rep, prog):
@@ -263,7 +263,7 @@ def r_blind_writes(rep, prog):
                       "reviewed caller of %s" % prim.split("::")[-1],
                       "%s is called from %s, which is not an initialisation/recovery/slot function: a blind write can "
                       "overwrite another thread's claim" % (prim, name), body.term(bi)["span"])
-    rep.floor(rule, "blind-write call sites", n, 18)
+    rep.floor(rule, "blind-write call sites", n, 10)
 
 
 def r_toggle_guard(rep, prog):
@@ -312,7 +312,7 @@ def r_toggle_guard(rep, prog):
             rep.check(is_not(new, cur) or is_not(cur, new), rule, "%s|cas-flips" % fn,
                       "CAS exchanges a value with its complement", "CAS does not exchange (x, !x): (%s, %s)" % (
                           T.show(tm.operand(t["args"][1])), T.show(tm.operand(t["args"][2]))), t["span"])
-    rep.floor(rule, "complementing CAS sites", n, 3)
+    rep.floor(rule, "complementing CAS sites", n, 2)
     # the mask of the single-row toggle
     tm = T.Terms(b, prog)
     masks = []
@@ -370,12 +370,22 @@ def r_return_claimed(rep, prog):
     b = lib.need_body(prog, fn)
     tm = T.Terms(b, prog)
     n = 0
+    targeted_direct = False
     for bi, si, rv in lib.assignments_to_return(b):
         if si == "term" or not (rv["k"] == "aggregate" and rv["kind"].get("variant") == "Ok"):
             continue
-        n += 1
         val = tm.operand(rv["ops"][0])
         span = b.blocks[bi]["stmts"][si]["span"]
+        if T.canon(val) == ("f", ("as", ("p", "frame"), "Some"), 0):
+            # targeted result written out as a match arm: Ok(frame) only where get_at returned Ok
+            gas = list(b.calls_to("llfree::lower::Lower::get_at"))
+            ps = PathSens(b, prog)
+            sts = ps.states_at(bi)
+            targeted_direct = bool(gas) and bool(sts) and all(env.get(("c", gas[0][0])) == 0 for _, env in sts)
+            if not targeted_direct:
+                rep.violation(rule, "Lower::get|targeted", "Ok(frame) is returned on a path where get_at(frame, order) did not succeed", span)
+            continue
+        n += 1
         sz = [(cb, ct) for cb, ct in b.calls_to("llfree::bitfield::Bitfield::set_first_zeros")]
         if val[0] == "call" and val[1].endswith("core::ops::arith::Add>::add"):
             # base path: bf_i.as_frame() + offset
@@ -409,6 +419,8 @@ def r_return_claimed(rep, prog):
             rets = [ctm.rvalue(rv) for _, si, rv in lib.assignments_to_return(cb) if si != "term"]
             if rets and T.canon(rets[0]) == ("up", "frame"):
                 ok = okargs
+        if targeted_direct:
+            ok = okargs
     rep.check(ok, rule, "Lower::get|targeted", "targeted: get_at(frame, order).map(|()| frame)",
               "a targeted Lower::get does not claim and return exactly the requested frame", b.span)
     # ---- get_at: the toggled bits are those of (frame, order)
